@@ -41,6 +41,9 @@ Qed.
 Lemma mem_singleton (q p : path) : mem q [p] = path_eqb q p.
 Proof. unfold mem. cbn. apply orb_false_r. Qed.
 
+Lemma wadd_mem p w : mem p w = true -> wadd p w = w.
+Proof. intro H. unfold wadd. now rewrite H. Qed.
+
 Lemma removelast_length {A} (l : list A) : length (removelast l) = Nat.pred (length l).
 Proof.
   induction l as [|x [|y l] IH]; [reflexivity|reflexivity|].
@@ -354,7 +357,7 @@ Proof.
   destruct (st_watching st) eqn:Wt; cbn; (split; [exact Hres'|]); intros _;
     unfold update_dir_watches; cbn;
     destruct (path_eqbP (dir (st_resolved st)) (dir res)) as [Heq|Hne].
-  - rewrite <- Heq. rewrite A, B. repeat split; try discriminate; auto.
+  - rewrite <- Heq. rewrite (wadd_mem _ _ B). rewrite A, B. repeat split; try discriminate; auto.
   - destruct (path_eqbP (dir (st_resolved st)) (dir cfg)) as [Heq2|Hne2].
     + rewrite !mem_wadd, A, path_eqb_refl. cbn. rewrite orb_true_r.
       repeat split; try discriminate; auto.
@@ -368,7 +371,7 @@ Proof.
       cbn. repeat split; try discriminate; auto.
       intros _ Hdr. rewrite D by (assumption || reflexivity). rewrite orb_true_r.
       rewrite path_eqb_sym, Hres. reflexivity.
-  - rewrite <- Heq. rewrite !mem_wadd, A, B, path_eqb_refl. cbn. rewrite !orb_true_r.
+  - rewrite <- Heq. rewrite !mem_wadd, A, B, ?path_eqb_refl. cbn. rewrite ?orb_true_r.
     repeat split; try discriminate; auto.
   - destruct (path_eqbP (dir (st_resolved st)) (dir cfg)) as [Heq2|Hne2].
     + rewrite !mem_wadd, A, !path_eqb_refl. cbn. rewrite !orb_true_r.
@@ -399,7 +402,7 @@ Proof.
     - repeat split; auto. }
   unfold update_dir_watches. cbn.
   destruct (path_eqbP (dir (st_resolved st)) (dir r)) as [Heq|Hne].
-  - rewrite <- Heq, A0, B0, E0. repeat split; try discriminate; auto.
+  - rewrite <- Heq. rewrite (wadd_mem _ _ B0). rewrite A0, B0, E0. repeat split; try discriminate; auto.
   - destruct (path_eqbP (dir (st_resolved st)) (dir cfg)) as [Heq2|Hne2].
     + rewrite !mem_wadd, A0, E0, path_eqb_refl. cbn. rewrite orb_true_r, (path_eqb_sym cfg), Hok2. cbn.
       repeat split; try discriminate; auto.
@@ -797,22 +800,31 @@ Qed.
 (* whenever the second half of a pass adds a watch, a token is left in the
    recheck channel, so the file is read once more with the watch in place *)
 Lemma recheck_after_new_watch_l cfg f st p :
+  mem (dir (st_resolved st)) (st_watches st) = true ->
+  path_eqb (dir (st_resolved st)) cfg = false ->
   mem p (st_watches st) = false ->
   mem p (st_watches (cont_phase update_dir_watches cfg f st)) = true ->
   st_recheck (cont_phase update_dir_watches cfg f st) = true.
 Proof.
-  intros H0. unfold cont_phase. destruct (st_pending st) as [[|]|]; [| |congruence].
+  intros HB Hres H0. unfold cont_phase. destruct (st_pending st) as [[|]|]; [| |congruence].
   - set (res := match fs_resolved f with Some r => r | None => st_resolved st end).
     unfold update_dir_watches.
     destruct (st_watching st); [|destruct (fs_addfile_ok f)]; cbn;
-      destruct (path_eqbP (dir (st_resolved st)) (dir res)); cbn; intro H;
-      try congruence; rewrite ?orb_true_r; reflexivity.
-  - assert (mem p (if st_watching st then wremove cfg (st_watches st) else st_watches st) = false) as H1.
-    { destruct (st_watching st); [|exact H0]. rewrite mem_wremove, H0. apply andb_false_r. }
-    destruct (fs_linkres f) as [r|]; cbn; [|congruence].
-    unfold update_dir_watches.
-    destruct (path_eqbP (dir (st_resolved st)) (dir r)); cbn; intro H; [congruence|].
-    apply orb_true_r.
+      destruct (path_eqbP (dir (st_resolved st)) (dir res)) as [Heq|]; cbn;
+      try (rewrite <- Heq); destruct (fs_adddir_ok f); cbn;
+      rewrite ?(wadd_mem _ _ HB); intro H; try congruence; rewrite ?orb_true_r; try reflexivity.
+    (* the file watch was just added and the believed directory refreshed *)
+    all: rewrite ?mem_wadd in H; rewrite ?orb_true_r; try reflexivity.
+  - set (w0 := if st_watching st then wremove cfg (st_watches st) else st_watches st).
+    assert (mem p w0 = false) as H1.
+    { unfold w0. destruct (st_watching st); [|exact H0]. rewrite mem_wremove, H0. apply andb_false_r. }
+    assert (mem (dir (st_resolved st)) w0 = true) as HB0.
+    { unfold w0. destruct (st_watching st); [|exact HB]. rewrite mem_wremove, HB, Hres. reflexivity. }
+    destruct (fs_linkres f) as [r|]; cbn; [|fold w0; congruence].
+    unfold update_dir_watches. fold w0.
+    destruct (path_eqbP (dir (st_resolved st)) (dir r)) as [Heq|]; cbn; intro H.
+    + rewrite <- Heq in H. destruct (fs_adddir_ok f); rewrite ?(wadd_mem _ _ HB0) in H; congruence.
+    + apply orb_true_r.
 Qed.
 
 (* a waiting token is received like any other input and makes the loop re-read *)
